@@ -39,6 +39,7 @@ var scenarios = map[string]scenario{
 	"d22-force-push-expiry": {run: scenarioD22},
 	"d11-terminate-renewed": {run: scenarioD11},
 	"d23-renew-during-migration": {run: scenarioD23},
+	"d23-expiry-halts":    {run: scenarioD23Halt, genesis: func(g *GenesisSpec) { g.NodeParams.OfflineTriggerHeight = 100000 }},
 	"d24-renew-after-revoked-grant": {run: scenarioD24},
 	// scripted life cycles that combine steps the random generators rarely line up (no finding attached)
 	"flow-debt-claim":     {run: flowDebtClaim, genesis: func(g *GenesisSpec) { g.NodeParams.Baseline = sdk.NewInt64Coin(Denom, 1); g.NodeParams.BlockReward = sdk.NewInt64Coin(Denom, 1000) }},
@@ -297,6 +298,29 @@ func scenarioD20(r *Recorder, accts []*Account) {
 	r.BeginBlock()
 	m.renew(o, dataA, 3600)
 	r.EndBlock()
+}
+
+// D23, continued: the double release left the provider's recorded shard collateral and used capacity below what its
+// remaining shards hold; when those shards reach the end of their paid term the release in EndBlock subtracts more
+// than is recorded.
+func scenarioD23Halt(r *Recorder, accts []*Account) {
+	scenarioD23(r, accts)
+	dump := func() {
+		ctx := r.c.deliverCtx()
+		for _, sh := range r.c.App.OrderKeeper.GetAllShard(ctx) {
+			r.Note(fmt.Sprintf("shard %d order %d status %d sp %s pledge %s", sh.Id, sh.OrderId, sh.Status, sh.Sp[len(sh.Sp)-4:], sh.Pledge))
+		}
+		for _, pl := range r.c.App.NodeKeeper.GetAllPledge(ctx) {
+			r.Note(fmt.Sprintf("pledge %s shardpledged %s used %d", pl.Creator[len(pl.Creator)-4:], pl.TotalShardPledged, pl.UsedStorage))
+		}
+	}
+	dump()
+	// more collateral enters the node escrow (any provider's capacity pledge), so the transfer of the release succeeds
+	r.BeginBlock()
+	r.AddVstorage(accts[1], 5000000000)
+	r.EndBlock()
+	r.Blocks(3610)
+	dump()
 }
 
 // D24: the latest version was written by a read-write grantee whose grant was then revoked. The
